@@ -501,12 +501,18 @@ def exec_purity(case):
     out.klass = [fn, case["qtype"], f"axis{axis}", "grouped" if gs else "ungrouped", "layout-" + case.get("mem", ["contig"])[0], "own-group" if gs and len(shape) >= 2 and gs == x.numel() // shape[axis] else "other"]
     out.nontrivial = gs is not None or case.get("mem", ["contig"])[0] != "contig" or axis == -1
 
+    # scale / zero-point tensors handed to the entry points are arguments too: ordinary, subnormal, tiny and null-ish values
+    tiny = torch.finfo(x.dtype).tiny
+    sval = [0.05, 0.05, tiny / 4, tiny, 1e-30 if x.dtype != torch.float16 else 6e-8, 3.0][case["seed"] % 6]
+    given = {"scale": torch.tensor(sval, dtype=x.dtype), "factor": [1.0, 1.0, 2.0**-20, 1.0][case["seed"] % 4]}
+    given["scale_keep"] = given["scale"].clone()
+
     def call():
         if fn == "quantize_weight":
             return quantize_weight(x, qtype, axis, gs)
         if fn == "quantize_activation":
             q8 = qtype if qtype.bits == 8 else O.QT8["qint8"]
-            return quantize_activation(x, q8, torch.tensor(0.05, dtype=x.dtype))
+            return quantize_activation(x, q8, given["scale"])
         if fn == "absmax_scale":
             return absmax_scale(x, qtype if qtype.bits == 8 else O.QT8["qint8"], [None, 0, -1][case["seed"] % 3])
         if fn == "optimizer":
@@ -515,13 +521,18 @@ def exec_purity(case):
             return MaxOptimizer()(x, qtype.bits, axis, gs)
         if fn == "symmetric":
             q8 = qtype if qtype.bits == 8 else O.QT8["qint8"]
-            sc = AbsmaxOptimizer()(x, 8, axis)
-            return SymmetricQuantizer.apply(x, q8, axis, sc)
+            if "sym" not in given:
+                given["sym"] = AbsmaxOptimizer()(x, 8, axis) * given["factor"]
+                given["sym_keep"] = given["sym"].clone()
+            return SymmetricQuantizer.apply(x, q8, axis, given["sym"])
         if fn == "affine":
             ql = qtype if qtype.bits < 8 else O.QTALL["qint4"]
             g2 = gs if qtype.bits < 8 else None
-            sc, zp = MaxOptimizer()(x, ql.bits, axis, g2)
-            return AffineQuantizer.apply(x, ql, axis, g2, sc, zp)
+            if "aff" not in given:
+                sc, zp = MaxOptimizer()(x, ql.bits, axis, g2)
+                given["aff"] = (sc * given["factor"], zp)
+                given["aff_keep"] = (given["aff"][0].clone(), zp.clone())
+            return AffineQuantizer.apply(x, ql, axis, g2, *given["aff"])
         q = quantize_weight(x, qtype, axis, gs)
         if fn == "dequantize":
             return q.dequantize()
@@ -537,6 +548,15 @@ def exec_purity(case):
     if changed or x._version != ver:
         which = "own-group" if gs and len(shape) >= 2 and gs == x.numel() // shape[axis] else ("unit-dim" if 1 in shape else case.get("mem", ["contig"])[0])
         out.fail(f"{tag}/modified-input/{'values' if changed else 'version-counter'}", f"{fn}({case['qtype']}, axis {axis}, group {gs}) on a {which} tensor {shape} modified the float tensor it was given")
+    def _bits(t):
+        return t.view(torch.int16 if t.element_size() == 2 else torch.int32) if t.is_floating_point() else t
+
+    if not torch.equal(_bits(given["scale"]), _bits(given["scale_keep"])):
+        out.fail(f"{tag}/modified-scale-argument", f"{fn} rewrote the scale tensor it was given ({given['scale_keep'].item()!r} -> {given['scale'].item()!r})")
+    if "sym" in given and not torch.equal(_bits(given["sym"]), _bits(given["sym_keep"])):
+        out.fail(f"{tag}/modified-scale-argument", f"{fn} rewrote the per-axis scale tensor it was given")
+    if "aff" in given and not (torch.equal(_bits(given["aff"][0]), _bits(given["aff_keep"][0])) and torch.equal(given["aff"][1], given["aff_keep"][1])):
+        out.fail(f"{tag}/modified-scale-argument", f"{fn} rewrote the scale / zero-point tensors it was given")
     if base_keep is not None and not torch.equal(x._base.nan_to_num(), base_keep.nan_to_num()):
         out.fail(f"{tag}/modified-input/base-storage", f"{fn} wrote into the storage the source is a view of")
     if not isinstance(r, Raised) and not out.failures:
